@@ -143,6 +143,10 @@ def emit_lean(gen, outdir):
         out.append("")
     out.append("def formats : List GenFormat := [" + ", ".join(names) + "]")
     out.append("")
+    out.append("/-- objects with static storage duration in Utils.c: (name, type, const-qualified) -/")
+    out.append("def utilsStatics : List (String × String × Bool) := [" + ", ".join(
+        "(%s, %s, %s)" % (lstr(x["name"]), lstr(x["type"]), lbool(x["const"])) for x in gen.get("utils", {}).get("statics", [])) + "]")
+    out.append("")
     out.append("def byFile (file : String) : Option GenFormat := formats.find? (fun g => g.file == file)")
     out.append("")
     out.append("end O1722.Gen")
